@@ -63,3 +63,25 @@ Section Loop.
     - apply (IH x'); [eapply step_inv; eassumption|exact H].
   Qed.
 End Loop.
+
+(* no fixed point possible: every continuing step decreases the measure *)
+Section LoopDec.
+  Context {X R : Type}.
+  Variable step : X -> lstep X R.
+  Variable mu : X -> nat.
+  Variable inv : X -> Prop.
+  Hypothesis step_inv : forall x x', inv x -> step x = Cont x' -> inv x'.
+  Hypothesis stop_safe : forall x r, inv x -> step x = Stop r -> safe r.
+  Hypothesis step_dec : forall x x', inv x -> step x = Cont x' -> (mu x' < mu x)%nat.
+
+  Theorem iter_total_dec n : forall x fuel, inv x -> (mu x < n)%nat -> (n <= fuel)%nat ->
+    safe (iter step fuel x).
+  Proof.
+    induction n as [|n IH]; intros x fuel Hi Hm Hf; [lia|].
+    destruct fuel as [|f]; [lia|]. cbn [iter].
+    destruct (step x) as [r|x'] eqn:E.
+    - exact (stop_safe x r Hi E).
+    - apply IH; [exact (step_inv x x' Hi E) | | lia].
+      pose proof (step_dec x x' Hi E). lia.
+  Qed.
+End LoopDec.
